@@ -78,6 +78,23 @@ def _has_quantifier(t, z3):
   return False
 
 
+def _has_lambda(t, z3):
+  stack = [t]
+  seen = set()
+  while stack:
+    x = stack.pop()
+    if x.get_id() in seen:
+      continue
+    seen.add(x.get_id())
+    if z3.is_quantifier(x):
+      if x.is_lambda():
+        return True
+      stack.append(x.body())
+    elif z3.is_app(x):
+      stack.extend(x.children())
+  return False
+
+
 def _try(z3, fs, ms):
   s1 = z3.Solver()
   s1.set('timeout', int(ms))
@@ -115,6 +132,31 @@ def _z3_check(smt2, timeout_ms, want_model=True):
     stages.append(('qf', qf + [goal]))
   if lemmas and quant:
     stages.append(('qf+lemmas', qf + lemmas + [goal]))
+  if quant:
+    # quantified hypotheses that talk about the goal's own symbols, then one
+    # more hop of relevance (through the quantifier-free hypotheses)
+    gs = _symbols(goal, z3)
+    qsym = [(f, _symbols(f, z3)) for f in quant]
+    near = [f for f, sy in qsym if sy & gs]
+    # set comprehensions (lambda terms) are expensive: first without them
+    plain = [f for f in quant if not _has_lambda(f, z3)]
+    near_plain = [f for f in near if not _has_lambda(f, z3)]
+    if near_plain and len(near_plain) < len(quant):
+      stages.append(('qf+lemmas+goal-foralls',
+                     qf + lemmas + near_plain + [goal]))
+    if plain and len(near_plain) < len(plain) < len(quant):
+      stages.append(('qf+lemmas+all-foralls', qf + lemmas + plain + [goal]))
+    if near and len(near_plain) < len(near) < len(quant):
+      stages.append(('qf+lemmas+goal-quantifiers', qf + lemmas + near + [goal]))
+    gs2 = set(gs)
+    for f in qf:
+      sy = _symbols(f, z3)
+      if sy & gs and len(sy) <= 6:
+        gs2 |= sy
+    near2 = [f for f, sy in qsym if sy & gs2]
+    if len(near) < len(near2) < len(quant):
+      stages.append(('qf+lemmas+near-quantifiers',
+                     qf + lemmas + near2 + [goal]))
   for name, sub in stages:
     if _try(z3, sub, short):
       return {'backend': 'z3', 'result': 'unsat', 'time': time.time() - t0,
